@@ -2,6 +2,7 @@
 //! amiquip code on generated / enumerated / corpus cases and writes what it did as
 //! Coq terms (case files) for the model and the property oracle to judge.
 mod absframe;
+mod c01;
 mod c02;
 mod c06;
 mod c10;
@@ -79,6 +80,7 @@ fn main() {
     match argv[1].as_str() {
         "consts" => consts::run(),
         "l2smoke" => l2smoke::run(&a),
+        "c01" => c01::run(&a),
         "c02" => c02::run(&a),
         "c06" => c06::run(&a),
         "c10" => c10::run(&a),
@@ -91,6 +93,7 @@ fn main() {
         "coremix" => coregen::run(&a, "CORE", "CoreMix", &["mix", "c07", "c03", "c04", "c05", "c08", "c09", "c11", "c13", "c20"]),
         "c03" => coregen::run(&a, "C03", "C03", &["c03"]),
         "c07" => coregen::run(&a, "C07", "C07", &["c07", "c07", "mix"]),
+        "c01core" => coregen::run(&a, "C01", "C01core", &["c01"]),
         "c04core" => coregen::run(&a, "C04", "C04", &["c04"]),
         "c05core" => coregen::run(&a, "C05", "C05", &["c05"]),
         "c08core" => coregen::run(&a, "C08", "C08", &["c08"]),
